@@ -615,7 +615,9 @@ class MappingSchema(AbstractMappingSchema, Schema):
         # Cache normalized tables by object id for exp.Table inputs
         # This is effective when the same Table object is looked up multiple times
         if isinstance(table, exp.Table) and (
-            cached := self._normalized_table_cache.get((table, dialect, normalize))
+            cached := self._normalized_table_cache.get(
+                (table, _dialect_cache_key(dialect), normalize)
+            )
         ):
             return cached
 
@@ -628,7 +630,9 @@ class MappingSchema(AbstractMappingSchema, Schema):
                         normalize_name(part, dialect=dialect, is_table=True, normalize=normalize)
                     )
 
-        self._normalized_table_cache[(normalized_table, dialect, normalize)] = normalized_table
+        self._normalized_table_cache[
+            (normalized_table, _dialect_cache_key(dialect), normalize)
+        ] = normalized_table
         return normalized_table
 
     def _normalize_name(
@@ -644,7 +648,7 @@ class MappingSchema(AbstractMappingSchema, Schema):
         name_str = name if isinstance(name, str) else name.name
         # A quoted identifier may be normalized differently from an unquoted one with the same text
         quoted = not isinstance(name, str) and name.quoted
-        cache_key = (name_str, quoted, dialect, is_table, normalize)
+        cache_key = (name_str, quoted, _dialect_cache_key(dialect), is_table, normalize)
 
         if cached := self._normalized_name_cache.get(cache_key):
             return cached
@@ -678,7 +682,7 @@ class MappingSchema(AbstractMappingSchema, Schema):
         """
         dialect = Dialect.get_or_raise(dialect) if dialect else self.dialect
         # The same type text can parse differently in another dialect
-        cache_key = (schema_type, dialect)
+        cache_key = (schema_type, _dialect_cache_key(dialect))
 
         if cache_key not in self._type_mapping_cache:
             udt = dialect.SUPPORTS_USER_DEFINED_TYPES
@@ -692,6 +696,19 @@ class MappingSchema(AbstractMappingSchema, Schema):
                 raise SchemaError(f"Failed to build type '{schema_type}'{in_dialect}.")
 
         return self._type_mapping_cache[cache_key]
+
+
+def _dialect_cache_key(dialect: DialectType) -> t.Hashable:
+    """Dialect instances compare (and hash) by type only, so their settings have to be part of a cache key."""
+    if isinstance(dialect, Dialect):
+        return (
+            type(dialect),
+            dialect.version,
+            dialect.normalization_strategy,
+            tuple(sorted((k, str(v)) for k, v in dialect.settings.items())),
+        )
+
+    return dialect
 
 
 def normalize_name(
